@@ -6,6 +6,7 @@ import (
 	"net/url"
 	"os"
 	"path/filepath"
+	"sync"
 )
 
 // settings holds pprof settings.
@@ -127,8 +128,13 @@ func configMenu(fname string, u url.URL) []configMenuEntry {
 	return result
 }
 
+// settingsMu serializes read-modify-write cycles on the settings file.
+var settingsMu sync.Mutex
+
 // editSettings edits settings by applying fn to them.
 func editSettings(fname string, fn func(s *settings) error) error {
+	settingsMu.Lock()
+	defer settingsMu.Unlock()
 	settings, err := readSettings(fname)
 	if err != nil {
 		return err
